@@ -466,8 +466,12 @@ func WorkerMain() {
 			if y.Out.TraceHash != x.Out.TraceHash {
 				res.DetFailures++
 				c.Save(fmt.Sprintf("%s/nondet-%d.json", *out, *offset))
-				res.Infra = fmt.Sprintf("determinism self-test failed for seed %d: generated run trace %016x, tape replay trace %016x", seed, x.Out.TraceHash, y.Out.TraceHash)
-				finish(2)
+				// Remember it and go on searching: on a changed tree a divergence can be the change's own
+				// doing (state it keeps across executions), and a violation found later says more than
+				// "inconclusive". Without a violation the run still ends as infrastructure trouble (exit 2).
+				if res.Infra == "" {
+					res.Infra = fmt.Sprintf("determinism self-test failed for seed %d: generated run trace %016x, tape replay trace %016x", seed, x.Out.TraceHash, y.Out.TraceHash)
+				}
 			}
 		}
 	}
